@@ -411,7 +411,7 @@ def run_task(task):
             # dense digit-count pass: the property's own width-sensitive family if it defines one, plus a sample of its normal workload
             reqs = list(prop.dense_requests(cfg, rng, task['n'], st)) if hasattr(prop, 'dense_requests') else []
             more = list(prop.requests(cfg, rng, task['n'], task['tier'], task['part'], task['nparts'], st))
-            cap = task['dense']
+            cap = task['dense'] if cfg.bits <= 1024 else max(30, task['dense'] // 3)
             if len(more) > cap:
                 more = [more[i] for i in sorted(rng.sample(range(len(more)), cap))]
             reqs += more
